@@ -1149,8 +1149,7 @@ class Tensor:
         if _track.TRACK_GRAPH and _mem.MEM_GUARD:
             # lock memory of array data
             _uniques_bases_then_arrs = WeakRefIterable(
-                _mem.lock_arr_writeability(x)
-                for x in _mem.unique_arrs_and_bases(tensor_vars)
+                _mem.lock_unique_arrs_and_bases(tensor_vars)
             )
 
         if op_args is None:
